@@ -1,4 +1,5 @@
 import DaskModel.Lemmas.SetItemMaskLemmas
+import DaskModel.Lemmas.SetItemNDValue
 /-!
 # C21, extension round — (a) the `where` path of `Array.__setitem__`
 
@@ -23,6 +24,30 @@ array to common chunks, one `np.where` task per block, then `rechunk(self.chunks
                         rank > 0 (the documented limitation of the path — finding `setitem:nd-mask+array-value`; NumPy
                         accepts a 1-d value of `count_nonzero(mask)` elements, `npMaskAssign`);
 * `dispatch_where_iff`  which single array keys take the path.
+
+# (b) the value-index bookkeeping of `setitem_array` (`Model/SetItemND.lean::planND`, unchanged)
+
+`vixEval` gives a value index its meaning (the positions of the value axis it reads, Python slice semantics); `pairUp` is
+NumPy's assignment inside one block along one axis (a piece of length one is broadcast).
+
+* `plan_value_indices`        for every plan of `planND` that does not raise and every touched block: `value_indices` is
+                              `[Ellipsis]` (iff the value has extra leading axes) followed by one entry per common value
+                              axis `i`, namely `slice(None)` when that value axis has length one, else the slice
+                              `[n_preceding, n_preceding + size)` / the positions `value_indices_from_1d_int_index` of the
+                              non-integer array axis `i + offset`, mirrored iff `i` is in the renumbered `reverse`
+                              (`expectVI`; `value_index_slice_axis`, `value_index_array_axis` identify it with the per-axis
+                              value indices `sliceAxisVIx` / `arrAxisVIx` the next theorems are about);
+* `value_index_positions`     one block, one slice axis: the positions read are NumPy's for the ranks `n … n+k-1` of the
+                              block's elements — 0 on a broadcast axis, the ranks, or the mirrored ranks;
+* `value_indices_partition_nd` every slice-indexed axis of an N-d assignment, every chunking: the (array position, value
+                              position) pairs of all blocks, concatenated in block order, are `zip(selected positions,
+                              NumPy's value positions)`; the value positions read are therefore `0 … L-1` once each in
+                              selection order (mirrored on a reversed axis) — the pieces are disjoint, consecutive and cover
+                              the value axis — or all 0 on a length-one axis;
+* `setitem_nd_value_den`      N-d: a vector of (array position, value position) pairs, one per axis, is assigned by some
+                              block iff it is NumPy's on every axis: the element written at global position `g` is
+                              `value[pos(g)]` with NumPy's broadcasting (no value axis for integer indices and for leading
+                              array axes beyond the value's rank; position 0 on length-one axes; mirrored on reversed axes).
 -/
 namespace Dask.C21x
 open Dask.Elemwise Dask.SetItemMask
@@ -126,5 +151,127 @@ theorem dispatch_where_iff (n : Nat) (k : KeyInfo) :
 example : dispatch 2 ⟨true, true, 2⟩ = Path.wherePath ∧ dispatch 2 ⟨true, true, 1⟩ = Path.setitemArray ∧
     dispatch 1 ⟨true, true, 1⟩ = Path.wherePath ∧ dispatch 2 ⟨false, true, 2⟩ = Path.wherePath ∧
     dispatch 1 ⟨false, true, 1⟩ = Path.setitemArray ∧ dispatch 2 ⟨true, false, 2⟩ = Path.setitemArray := by decide
+
+
+/-! ## (b) value indices -/
+
+open Dask.Slice1D Dask.SetItem Dask.Store Dask.SetItemND
+
+/-- **Which entry of `value_indices` is which** (every plan, every touched block). -/
+theorem plan_value_indices (chunks : List (List Nat)) (indices : List AIdx) (implied : List Int) (reverse vshape : List Nat)
+    (blocks : List (Option (List BIx × List VIx))) (su : Setup)
+    (h : planND chunks indices implied reverse vshape = Res.ok blocks) (hne : implied.any (· == 0) = false)
+    (hsu : setup indices implied reverse vshape = some su) (hnd : su.reverse.Nodup)
+    (k : Nat) (locs : List (Int × Int)) (hk : (product (chunks.map locations))[k]? = some locs)
+    (bis : List BIx) (vis : List VIx) (hb : blocks[k]? = some (some (bis, vis))) :
+    ∃ st vis', loopDims (indices.zip locs) ⟨[], [], [], none⟩ = some st ∧ bis = st.blockIndices ∧
+      vis = (if su.valueOffset ≠ 0 then VIx.ellipsis :: vis' else vis') ∧
+      vis'.length = min su.arrayCommon.length su.valueCommon.length ∧
+      ∀ i, i < vis'.length → vis'[i]? = expectVI st su vshape i :=
+  planND_value_indices chunks indices implied reverse vshape blocks su h hne hsu hnd k locs hk bis vis hb
+
+/-- non-vacuity: `x[::-1, 1:3] = v`, `x` of shape (4, 5) chunked ((2,2),(5,)), `v` of shape (4, 1) — block (1, 0) reads the
+    mirrored rows `slice(1, None, -1)` and broadcasts the length-one column axis -/
+example : planND [[2, 2], [5]] [.sl 0 4 1, .sl 1 3 1] [4, 2] [0] [4, 1]
+    = Res.ok [some ([.sl 0 2 1, .sl 1 3 1], [.sl ⟨some 3, some 1, some (-1)⟩, .sl colon]),
+              some ([.sl 0 2 1, .sl 1 3 1], [.sl ⟨some 1, none, some (-1)⟩, .sl colon])] := by rfl
+example : (setup [.sl 0 4 1, .sl 1 3 1] [4, 2] [0] [4, 1]).map (·.reverse) = some [0] := by decide
+
+theorem value_index_slice_axis (st : LoopState) (su : Setup) (vshape : List Nat) (i b : Nat) (p s : Int)
+    (hb : su.valueCommon[i]? = some b) (hp : st.preceding[i + su.offset]? = some (some p))
+    (hs : st.shape[i + su.offset]? = some (some s))
+    (harr : ∀ pos index l0 l1, st.arrInfo = some (pos, index, l0, l1) → i + su.offset ≠ pos) :
+    expectVI st su vshape i = sliceAxisVIx b (decide (i ∈ su.reverse)) p s :=
+  expectVI_slice st su vshape i b p s hb hp hs harr
+
+theorem value_index_array_axis (st : LoopState) (su : Setup) (vshape : List Nat) (i b : Nat) (index : List Int) (l0 l1 : Int)
+    (hb : su.valueCommon[i]? = some b) (ha : st.arrInfo = some (i + su.offset, index, l0, l1)) (hr : i ∉ su.reverse) :
+    expectVI st su vshape i = some (arrAxisVIx b index (l0, l1)) :=
+  expectVI_arr st su vshape i b index l0 l1 hb ha hr
+
+/-- **One block, one slice axis.** `n` = `n_preceding`, `k` = `block_index_size` (> 0 for a touched block:
+    `slice_block_spec`), `L` = length of the selection, `vlen` = length of the matched value axis (1 or `L`). The value index
+    evaluates, and NumPy's in-block assignment pairs the `t`-th selected element with NumPy's value position of rank `n+t`. -/
+theorem value_index_positions (vlen L : Nat) (rev : Bool) (n k : Nat) (hk : 0 < k) (h : n + k ≤ L) (hv : vlen = 1 ∨ vlen = L) :
+    ∃ v vp, sliceAxisVIx vlen rev (n : Int) (k : Int) = some v ∧ vixEval vlen v = some vp ∧
+      ∀ {α : Type} (sel : List α), sel.length = k → pairUp sel vp = sel.zip ((List.range' n k).map (npPos vlen L rev)) :=
+  sliceAxis_positions vlen L rev n k hk h hv
+
+/-- non-vacuity: a reversed axis of 5 selected elements, the block holding ranks 1, 2 reads value positions 3, 2 -/
+example : sliceAxisVIx 5 true 1 2 = some (.sl ⟨some 3, some 1, some (-1)⟩) ∧
+    vixEval 5 (.sl ⟨some 3, some 1, some (-1)⟩) = some [3, 2] ∧ (List.range' 1 2).map (npPos 5 5 true) = [3, 2] ∧
+    sliceAxisVIx 1 true 1 2 = some (.sl ⟨some 0, none, some (-1)⟩) ∧ vixEval 1 (.sl ⟨some 0, none, some (-1)⟩) = some [0] := by
+  decide
+
+/-- **`value_indices_partition_nd`.** `axes` = per axis of the array the parsed index and the matched value axis; `chunks`
+    any chunking. For every slice-indexed axis with a value axis: over all blocks of that axis, in block order, the pairs
+    (array position, value position read) are `zip(selected positions, NumPy's value positions)`; the value positions read
+    are `npPos 0, …, npPos (L-1)` — each rank exactly once, in selection order (so the pieces of different blocks are
+    disjoint and cover the value axis), 0 everywhere on a length-one axis, mirrored on a reversed axis. -/
+theorem value_indices_partition_nd (axes : List (AIdx × VAx)) (chunks : List (List Nat)) (hok : AxesOKV axes chunks)
+    (j : Nat) (start stop step : Int) (vlen : Nat) (rev : Bool) (c : List Nat)
+    (ha : axes[j]? = some (.sl start stop step, some (vlen, rev))) (hc : chunks[j]? = some c) :
+    (locations c).flatMap (sliceBlockPairs start stop step vlen rev)
+      = (rangeUp start stop step).zip
+          ((List.range (rangeUp start stop step).length).map (npPos vlen (rangeUp start stop step).length rev)) ∧
+    ((locations c).flatMap (sliceBlockPairs start stop step vlen rev)).map (·.2)
+      = (List.range (rangeUp start stop step).length).map (npPos vlen (rangeUp start stop step).length rev) ∧
+    (vlen = 1 → ∀ p ∈ (locations c).flatMap (sliceBlockPairs start stop step vlen rev), p.2 = 0) := by
+  have hax : AxisOK c (.sl start stop step) ∧ VAxOK (.sl start stop step) (some (vlen, rev)) := by
+    induction axes generalizing chunks j with
+    | nil => simp at ha
+    | cons a as ih =>
+      cases chunks with
+      | nil => simp at hc
+      | cons c0 cs =>
+        simp only [AxesOKV] at hok
+        cases j with
+        | zero =>
+          simp at ha hc
+          subst ha; subst hc
+          exact hok.1
+        | succ j => exact ih cs hok.2 j (by simpa using ha) (by simpa using hc)
+  obtain ⟨⟨hs, h0, hss, hstop⟩, hv⟩ := hax
+  have h := slice_axis_value_den c start stop step hs h0 hss hstop vlen rev hv
+  refine ⟨h, ?_, ?_⟩
+  · rw [h]
+    have : (fun p : Int × Int => p.2) = Prod.snd := rfl
+    rw [this, List.map_snd_zip (by simp)]
+  · intro h1 p hp
+    rw [h] at hp
+    have := (List.of_mem_zip hp).2
+    simp only [List.mem_map] at this
+    obtain ⟨r, _, hr⟩ := this
+    rw [← hr]
+    simp [npPos, h1]
+
+/-- non-vacuity: `x[7:0:-2] = v` on 9 elements chunked (4, 3, 2): parsed `slice(1, 8, 2)`, reversed, `v` of 4 elements:
+    position 1 ← v[3], 3 ← v[2], 5 ← v[1], 7 ← v[0]; the same selection with a length-one value: position 0 everywhere -/
+example : (locations [4, 3, 2]).flatMap (sliceBlockPairs 1 8 2 4 true) = [(1, 3), (3, 2), (5, 1), (7, 0)] ∧
+    (locations [4, 3, 2]).flatMap (sliceBlockPairs 1 8 2 1 true) = [(1, 0), (3, 0), (5, 0), (7, 0)] ∧
+    AxesOKV [(.sl 1 8 2, some (4, true))] [[4, 3, 2]] := by
+  refine ⟨by decide, by decide, ⟨⟨by decide, by decide, by decide, by decide⟩, Or.inr (by decide)⟩, trivial⟩
+
+/-- **`setitem_nd_value_den`: N-d assignment with broadcasting, on the plan.** A vector `t` of (array position, value
+    position) pairs — one per axis; no value position where the axis has no value axis — is assigned by some block `b` (on
+    every axis the pair is among those the axis' block `b_k` assigns, computed from the value indices the code builds)
+    **iff** it is NumPy's on every axis. Blocks assign nothing else, every selected element is assigned, and the element
+    written at a global position is the value element NumPy's broadcasting puts there. -/
+theorem setitem_nd_value_den (axes : List (AIdx × VAx)) (chunks : List (List Nat)) (hok : AxesOKV axes chunks)
+    (t : List (Int × Option Int)) :
+    NDSelectedV axes chunks t ↔ ∃ b, NDIn (fsOfV axes) chunks b t := by
+  rw [← ndAny_selectedV axes chunks t hok]
+  exact ndIn_cover (fsOfV axes) chunks t
+
+/-- non-vacuity: `x[:, ::-1, 2, [3, 0]] = v` with `v` of shape (1, 2) on a 4-d array: leading axis without value axis, a
+    reversed broadcast axis, an integer, an integer-array axis -/
+example : AxesOKV [(.sl 0 2 1, none), (.sl 0 3 1, some (1, true)), (.int 2, none), (.arr [3, 0], some (2, false))]
+    [[1, 1], [2, 1], [3], [2, 2]] := by
+  refine ⟨⟨⟨by decide, by decide, by decide, by decide⟩, trivial⟩, ⟨⟨by decide, by decide, by decide, by decide⟩, Or.inl rfl⟩,
+    ⟨⟨by decide, by decide⟩, trivial⟩, ⟨by intro v hv; simp at hv; rcases hv with rfl | rfl <;> decide, Or.inr rfl, rfl⟩, trivial⟩
+example : NDIn (fsOfV [(.sl 0 2 1, none), (.sl 0 3 1, some (1, true)), (.int 2, none), (.arr [3, 0], some (2, false))])
+    [[1, 1], [2, 1], [3], [2, 2]] [1, 1, 0, 0] [(1, none), (2, some 0), (2, none), (0, some 1)] :=
+  ⟨⟨(1, 2), by decide, by decide⟩, ⟨(2, 3), by decide, by decide⟩, ⟨(0, 3), by decide, by decide⟩,
+   ⟨(0, 2), by decide, by decide⟩, trivial⟩
 
 end Dask.C21x
